@@ -1106,6 +1106,206 @@ func (s *pluginDirScan) visit(p string, d fs.DirEntry, err error) error {
 WALK_STRMARK_CLOSURE = rep(rep(rep(rep(WALK_OLD, '\tvar foundPluginExecutableFile bool\n', ''), '\t\t\tif foundPluginExecutableFile {\n', '\t\t\tif "" != pluginExecutableFile {\n'), '\t\t\tfoundPluginExecutableFile = true\n', ''),
                            '\tif !foundPluginExecutableFile {\n', '\tif pluginExecutableFile == "" {\n')
 
+# ---- fifth pass: the walk skeleton in a helper that takes the per-entry action as a function value
+DIRCOPY_OLD = """func CopyDirToDir(src, dst string) error {
+	fi, err := os.Stat(src)
+	if err != nil {
+		return err
+	}
+	if !fi.Mode().IsDir() {
+		return ErrNotDirectory
+	}
+	return filepath.WalkDir(src, func(path string, d fs.DirEntry, err error) error {
+		if err != nil {
+			return err
+		}
+		// skip sub-directories
+		if d.IsDir() && path != src {
+			return fs.SkipDir
+		}
+		info, err := d.Info()
+		if err != nil {
+			return err
+		}
+		// only copy regular files
+		if info.Mode().IsRegular() {
+			return CopyToDir(path, dst)
+		}
+		return nil
+	})
+}
+"""
+DIRCOPY_VIA = """func CopyDirToDir(src, dst string) error {
+	return WalkRegularFiles(src, func(path string, _ fs.DirEntry) error {
+		return CopyToDir(path, dst)
+	})
+}
+
+func WalkRegularFiles(dir string, fn func(path string, d fs.DirEntry) error) error {
+	fi, err := os.Stat(dir)
+	if err != nil {
+		return err
+	}
+	if !fi.Mode().IsDir() {
+		return ErrNotDirectory
+	}
+	return filepath.WalkDir(dir, func(path string, d fs.DirEntry, err error) error {
+		if err != nil {
+			return err
+		}
+		// skip sub-directories
+		if d.IsDir() && path != dir {
+			return fs.SkipDir
+		}
+		info, err := d.Info()
+		if err != nil {
+			return err
+		}
+		// only take regular files
+		if !info.Mode().IsRegular() {
+			return nil
+		}
+		return fn(path, d)
+	})
+}
+"""
+SANITY_M = """	// sanity check
+	fi, err := os.Stat(path)
+	if err != nil {
+		return "", "", err
+	}
+	if !fi.Mode().IsDir() {
+		return "", "", file.ErrNotDirectory
+	}
+"""
+_WALK_HEAD = WALK_OLD[WALK_OLD.index('\tif err := filepath.WalkDir(path, func('):WALK_OLD.index('\t}); err != nil {\n\t\treturn "", "", err\n\t}\n')]
+ACTION_BODY = """		var err error
+		if candidatePluginName, err = parsePluginName(d.Name()); err != nil {
+			return nil
+		}
+		filesWithValidNameFormat = append(filesWithValidNameFormat, p)
+		isExec, err := isExecutableFile(p)
+		if err != nil {
+			return err
+		}
+		if !isExec {
+			return nil
+		}
+		if foundPluginExecutableFile {
+			return errors.New("found more than one plugin executable files")
+		}
+		foundPluginExecutableFile = true
+		pluginExecutableFile = p
+		pluginName = candidatePluginName
+		return nil
+"""
+# the parser with the action handed to the shared helper of internal/file
+WALK_VIA = rep(WALK_OLD, _WALK_HEAD, '\tif err := file.WalkRegularFiles(path, func(p string, d fs.DirEntry) error {\n' + ACTION_BODY)
+# another member of the class: the helper is a private function of the plugin package, takes (entry, path) in the other
+# order, and its callback checks the action's error instead of returning the call
+LOCAL_HELPER = """
+func eachTopLevelFile(root string, visit func(d fs.DirEntry, p string) error) error {
+	st, err := os.Stat(root)
+	if err != nil {
+		return err
+	}
+	if !st.Mode().IsDir() {
+		return file.ErrNotDirectory
+	}
+	return filepath.WalkDir(root, func(p string, d fs.DirEntry, err error) error {
+		if err != nil {
+			return err
+		}
+		if d.IsDir() {
+			if p == root {
+				return nil
+			}
+			return fs.SkipDir
+		}
+		info, err := d.Info()
+		if err != nil {
+			return err
+		}
+		if info.Mode().IsRegular() {
+			if err := visit(d, p); err != nil {
+				return err
+			}
+		}
+		return nil
+	})
+}
+"""
+WALK_VIA_LOCAL = rep(WALK_OLD, _WALK_HEAD, '\tif err := eachTopLevelFile(path, func(d fs.DirEntry, p string) error {\n' + ACTION_BODY) + LOCAL_HELPER
+# a third member: the action is a method value of a scan-state object
+WALK_VIA_METHOD = """	// walk the path
+	scan := pluginFileScan{}
+	if err := file.WalkRegularFiles(path, scan.visitFile); err != nil {
+		return "", "", err
+	}
+	if !scan.found {
+		if len(scan.candidates) == 1 {
+			candidate := scan.candidates[0]
+			if err := setExecutable(candidate); err != nil {
+				return "", "", fmt.Errorf("no plugin executable file was found: %w", err)
+			}
+			logger.Warnf("Found candidate plugin executable file %q without executable permission. Setting user executable bit and trying to install.", filepath.Base(candidate))
+			candidatePluginName, err := parsePluginName(filepath.Base(candidate))
+			if err != nil {
+				return "", "", err
+			}
+			return candidate, candidatePluginName, nil
+		}
+		return "", "", errors.New("no plugin executable file was found")
+	}
+	return scan.executableFile, scan.pluginName, nil
+}
+
+type pluginFileScan struct {
+	found          bool
+	executableFile string
+	pluginName     string
+	candidates     []string
+}
+
+func (s *pluginFileScan) visitFile(p string, d fs.DirEntry) error {
+	candidatePluginName, err := parsePluginName(d.Name())
+	if err != nil {
+		return nil
+	}
+	s.candidates = append(s.candidates, p)
+	isExec, err := isExecutableFile(p)
+	if err != nil {
+		return err
+	}
+	if !isExec {
+		return nil
+	}
+	if s.found {
+		return errors.New("found more than one plugin executable files")
+	}
+	s.found = true
+	s.executableFile = p
+	s.pluginName = candidatePluginName
+	return nil
+}
+"""
+
+def via(find=None, replace=None, m=None, f=None, extra=()):
+    """base tree -> shared helper WalkRegularFiles + two actions; optional rewrite inside the new code"""
+    newF, newM = DIRCOPY_VIA, (m or WALK_VIA)
+    if find is not None:
+        if find in newF:
+            newF = rep(newF, find, replace)
+        else:
+            newM = rep(newM, find, replace)
+    return [(F, DIRCOPY_OLD, newF), (M, SANITY_M, ''), (M, WALK_OLD, newM)] + list(extra)
+
+def via_local(find=None, replace=None):
+    newM = WALK_VIA_LOCAL
+    if find is not None:
+        newM = rep(newM, find, replace)
+    return [(M, SANITY_M, ''), (M, WALK_OLD, newM)]
+
 VARIANTS = [
  dict(name='equal-version-reinstalls', file=M, expect='flagged(table/decision)',
       find='\t\t\tcase comp == 0:\n\t\t\t\treturn nil, nil, InstallEqualVersionError{Msg: fmt.Sprintf("plugin %s with version %s already exists", pluginName, existingPluginMetadata.Version)}\n', replace=''),
@@ -1551,4 +1751,59 @@ VARIANTS = [
  dict(name='shape4-found-mark-walk-without-stat', expect='flagged(discovery/',
       edits=[(M, WALK_OLD, WALK_STRMARK), (M, '\tfi, err := os.Stat(path)\n\tif err != nil {\n\t\treturn "", "", err\n\t}\n\tif !fi.Mode().IsDir() {\n\t\treturn "", "", file.ErrNotDirectory\n\t}\n', '')],
       why='nothing says the walk root is not empty'),
+ # O. fifth pass: the walk skeleton ("stat, walk, skip sub-directories, regular files only") in a helper that takes the
+ #    per-entry action as a function value
+ dict(name='shape5-walk-helper-action-closure', expect='silent', edits=via(),
+      why='CopyDirToDir and parsePluginFromDir hand a function literal to one exported helper of the internal package; the helper is certified as a pure walk, the actions are judged as callbacks were'),
+ dict(name='shape5-walk-helper-private-err-checked-swapped-args', expect='silent', edits=via_local(),
+      why='private helper in the plugin package, action takes (entry, path), the callback tests the action error instead of returning the call, nested directory test'),
+ dict(name='shape5-walk-helper-action-method-value', expect='silent', edits=via(m=WALK_VIA_METHOD),
+      why='the action is a method value bound to a local scan-state object'),
+ dict(name='shape5-walk-helper-enters-subdirs', expect='flagged(discovery/skip-sub-directories)',
+      edits=via('\t\tif d.IsDir() && path != dir {\n\t\t\treturn fs.SkipDir\n\t\t}\n', '\t\tif d.IsDir() {\n\t\t\treturn nil\n\t\t}\n')),
+ dict(name='shape5-walk-helper-F10-base-name', expect='flagged(discovery/skip-sub-directories)',
+      edits=via('\t\tif d.IsDir() && path != dir {', '\t\tif d.IsDir() && d.Name() != filepath.Base(dir) {')),
+ dict(name='shape5-walk-helper-hands-non-regular', expect='flagged(discovery/regular-files-only)',
+      edits=via('\t\tif !info.Mode().IsRegular() {\n\t\t\treturn nil\n\t\t}\n', '\t\tif info.Mode().IsDir() {\n\t\t\treturn nil\n\t\t}\n'),
+      why='symlinks reach both actions'),
+ dict(name='shape5-walk-helper-hands-non-regular-copy', expect='flagged(copy/directory)',
+      edits=via('\t\tif !info.Mode().IsRegular() {\n\t\t\treturn nil\n\t\t}\n', '\t\tif info.Mode().IsDir() {\n\t\t\treturn nil\n\t\t}\n')),
+ dict(name='shape5-walk-helper-drops-action-error', expect='flagged(discovery/walk-callback)',
+      edits=via('\t\treturn fn(path, d)\n', '\t\t_ = fn(path, d)\n\t\treturn nil\n'),
+      why='a failed copy / a second executable no longer fails the walk'),
+ dict(name='shape5-walk-helper-runs-action-outside-walk', expect='flagged(discovery/walk-callback)',
+      edits=via('\tif !fi.Mode().IsDir() {\n\t\treturn ErrNotDirectory\n\t}\n\treturn filepath.WalkDir(dir,', '\tif !fi.Mode().IsDir() {\n\t\treturn fn(dir, fs.FileInfoToDirEntry(fi))\n\t}\n\treturn filepath.WalkDir(dir,'),
+      why='a source that is a single file is handed to the action as if it were an entry of the walk'),
+ dict(name='shape5-walk-helper-action-gets-root', expect='flagged(discovery/walk-callback)',
+      edits=via('\t\treturn fn(path, d)\n', '\t\treturn fn(dir, d)\n')),
+ dict(name='shape5-walk-helper-skipdir-at-non-regular', expect='flagged(discovery/skip-only-directories)',
+      edits=via('\t\tif !info.Mode().IsRegular() {\n\t\t\treturn nil\n\t\t}\n', '\t\tif !info.Mode().IsRegular() {\n\t\t\treturn fs.SkipDir\n\t\t}\n'),
+      why='seed C20-6 in the new shape: the files after a symlink are dropped silently'),
+ dict(name='shape5-action-answers-skipall', expect='flagged(discovery/skip-only-directories)',
+      edits=via('\t\tif !isExec {\n\t\t\treturn nil\n\t\t}\n', '\t\tif !isExec {\n\t\t\treturn fs.SkipAll\n\t\t}\n'),
+      why='the walk ends at the first non-executable candidate: a later executable is never seen'),
+ dict(name='shape5-action-second-executable-wins', expect='flagged(discovery/pair-from-same-entry)',
+      edits=via('\t\tif foundPluginExecutableFile {\n\t\t\treturn errors.New("found more than one plugin executable files")\n\t\t}\n', '')),
+ dict(name='shape5-action-name-from-other-entry', expect='flagged(discovery/pair-from-same-entry)',
+      edits=via('\t\tpluginName = candidatePluginName\n\t\treturn nil\n', '\t\tpluginName = filepath.Base(path) + candidatePluginName[:0]\n\t\treturn nil\n'),
+      why='the name comes from the directory, not from the executable entry'),
+ dict(name='shape5-dircopy-action-drops-error', expect='flagged(copy/directory)',
+      edits=via('\t\treturn CopyToDir(path, dst)\n\t})\n}\n\nfunc WalkRegularFiles', '\t\t_ = CopyToDir(path, dst)\n\t\treturn nil\n\t})\n}\n\nfunc WalkRegularFiles')),
+ dict(name='shape5-dircopy-action-copies-some', expect='flagged(copy/directory)',
+      edits=via('\t\treturn CopyToDir(path, dst)\n\t})\n}\n\nfunc WalkRegularFiles', '\t\tif strings.HasPrefix(filepath.Base(path), ".") {\n\t\t\treturn nil\n\t\t}\n\t\treturn CopyToDir(path, dst)\n\t})\n}\n\nfunc WalkRegularFiles'),
+      why='hidden files are left out of the installed plugin directory'),
+ dict(name='shape5-dircopy-action-copies-into-source', expect='flagged(copy/directory)',
+      edits=via('\t\treturn CopyToDir(path, dst)\n\t})\n}\n\nfunc WalkRegularFiles', '\t\treturn CopyToDir(path, src)\n\t})\n}\n\nfunc WalkRegularFiles')),
+ dict(name='shape5-private-helper-drops-action-error', expect='flagged(discovery/walk-callback)',
+      edits=via_local('\t\t\tif err := visit(d, p); err != nil {\n\t\t\t\treturn err\n\t\t\t}\n', '\t\t\tif err := visit(d, p); err != nil {\n\t\t\t\treturn nil\n\t\t\t}\n')),
+ dict(name='shape5-private-helper-walk-without-stat', expect='flagged(discovery/source-is-directory)',
+      edits=via_local('\tst, err := os.Stat(root)\n\tif err != nil {\n\t\treturn err\n\t}\n\tif !st.Mode().IsDir() {\n\t\treturn file.ErrNotDirectory\n\t}\n', '')),
+ # the clause behind seed C20-6 in the base shape (decided for what it says)
+ dict(name='skipdir-at-non-regular-entry', file=F, expect='flagged(discovery/skip-only-directories)',
+      find='\t\tif info.Mode().IsRegular() {\n\t\t\treturn CopyToDir(path, dst)\n\t\t}\n\t\treturn nil', replace='\t\tif info.Mode().IsRegular() {\n\t\t\treturn CopyToDir(path, dst)\n\t\t}\n\t\treturn fs.SkipDir',
+      why='a symlink makes WalkDir skip the rest of the source directory'),
+ dict(name='skipdir-at-misnamed-file', file=M, expect='flagged(discovery/skip-only-directories)',
+      find='\t\t\t\t// file name does not follow the notation-{plugin-name} format,\n\t\t\t\t// continue\n\t\t\t\treturn nil', replace='\t\t\t\treturn fs.SkipDir'),
+ dict(name='benign-skipdir-by-type-bits', file=F, expect='silent',
+      find='\t\tif d.IsDir() && path != src {\n\t\t\treturn fs.SkipDir\n\t\t}\n', replace='\t\tif d.IsDir() && path != src {\n\t\t\tif d.Type().IsDir() {\n\t\t\t\treturn fs.SkipDir\n\t\t\t}\n\t\t\treturn filepath.SkipDir\n\t\t}\n'),
 ]
